@@ -30,6 +30,15 @@ Clauses (statement -> clause):
                                Exact equality with the teneva metric functions (the clause is about agreement of the
                                report with the returned tensor) plus an own dense evaluation with tolerance.
 
+Parameter coverage (every clause takes an optional `opt` dictionary; the systematic part above uses the defaults):
+target scale 1e-12 .. 1e12 (1e+-30 thorough; the property is homogeneous in the target, all tolerances are
+relative), scale of the start 1e-8 / 1e8, Fortran-ordered and non-contiguous cores of the start, rank profiles of
+the start (ragged, far above rho), tau in {1, 1.01, 3, 1e6}, tau0 in {1, 2, 10}, k0 in {1, 2}, growth 1/3, 2/3, 3/5
+(clipped on nearly square unfoldings), validation data as nested lists, the `func` replacement (a counting wrapper
+around the library's own request function: called once per request, 2 d per sweep), log=True (one line per sweep
+plus the pre-iteration line, same result), an integer-valued objective returned as integer ndarray (cache clauses),
+d = 6 (9 thorough) modes and mode sizes up to 40 (70 thorough).
+
 Conditioning rule ("almost all tensors"): SKIP unless every unfolding of T has sigma_r / sigma_1 >= 1e-3 at
 its generic rank r = min(rho, product of mode sizes on either side).
 """
@@ -41,9 +50,12 @@ from rtc import gen
 
 
 BUDGET = (60, 600)
-BOUNDS = ('d in 2..4, n_k in 1..6, rho <= 3 (quick) / 4 (thorough), Gaussian targets and starts; fixed-rank starts '
-          'r0 in {rho, rho+1} (0/0), growth 1/1, 1/2, 2/2 from r0 in {1, 2}; 14 systematic shapes + random ones; '
-          'cache None / {} / pre-filled; 6 ways of ending a run for the info clause')
+BOUNDS = ('d in 2..4 (6; 9 thorough), n_k in 1..6 (40; 70 thorough), rho <= 3 (quick) / 4 (thorough), Gaussian targets '
+          'and starts; fixed-rank starts r0 in {rho, rho+1, rho+3, ragged profile} (0/0), growth 1/1, 1/2, 2/2, 1/3, 2/3, 3/5 '
+          'from r0 in {1, 2}; 14 systematic shapes + random ones; cache None / {} / pre-filled; 6 ways of ending a run '
+          'for the info clause; target scale 1e-12..1e12 (1e+-30 thorough), start scale 1e+-8, tau {1,1.01,3,1e6}, tau0 '
+          '{1,2,10}, k0 {1,2}, F-ordered / non-contiguous starts, list-form validation data, func hook, log=True, '
+          'integer-valued objective')
 
 FUNCS = ('cross.cross', 'cross._func', 'cross._func_eval', 'cross._iter', 'utils._info_appr', 'utils._maxvol')
 HUGE = 10 ** 18
